@@ -3,9 +3,12 @@
    covers (the window of the last n applied patches), what each step writes - the file as
    ModifiedFiles::rollback returns it, which by C04_tree_plain / C04_tree_rename is the file's state
    before that file patch - and that applied-patches gains exactly the applied names
-   (C05_records_exactly_the_applied).  PARTIAL: that restoring the backups in reverse order recreates
-   the pre-push tree (pop_spec) is decided by the runs: the implementation's .pc tree is popped by the
-   check and compared with snapshots taken by pushing one patch at a time. *)
+   (C05_records_exactly_the_applied).  That restoring the backups newest first recreates the tree before
+   the push is proved at the level of what names read as (C08_pop_restores_all: every history, renames
+   included; the walk is what Quilt.backups writes: C08_backups_write_the_walk).  PARTIAL: that a backup
+   FILE under .pc reads back as the file it was written from (zero length for "was not there") is decided
+   by the runs: the implementation's .pc tree is popped by the check and compared with snapshots taken by
+   pushing one patch at a time. *)
 From Coq Require Import List ZArith NArith Bool.
 Import ListNotations.
 From RQ Require Import Base Apply Parser Quilt QuiltProofs TreeRollback.
@@ -76,3 +79,80 @@ Theorem C08_backups_hold_the_state_before :
                      wsim allK dm fs ov_end fs (a_files st) /\ hsim dm h l.
 Proof. exact backups_hold_the_state_before. Qed.
 Print Assumptions C08_backups_hold_the_state_before.
+
+(* ---------- restoring the backups recreates the tree before the push ---------- *)
+From RQ Require Import PopRestores ParserWf.
+
+(* For a history without renames: the files the backup walk hands out (l, newest first; each is written to
+   .pc/<patch>/<target>, C08_backup_is_rolled_back_file), put back under their names in that order (pop_all), leave
+   every name reading as it did before the history - lines, existence, effective mode.  (Histories without renames;
+   the general statement follows below.) *)
+Theorem C08_pop_restores :
+  forall dm fs, disk_ok fs -> forall st h st2, plain_steps fs st h st2 ->
+    exists ov_end l, undo_all (a_files st2) (List.map fst h) = ROk (ov_end, l) /\ hsim dm h l /\
+                     List.map fst l = List.map fst h /\
+                     wsim allK dm fs (pop_all l (a_files st2)) fs (a_files st).
+Proof. exact pop_restores. Qed.
+Print Assumptions C08_pop_restores.
+
+(* the file patches of a patch (none a rename) form such a history, and histories compose over the patches of a push *)
+Theorem C08_patches_form_plain_histories :
+  (forall fs index sp fuzz fps st af af' st',
+     apply_file_patches fs st index sp fuzz fps af = ROk (af', st') -> run_ok fs st index sp fuzz fps ->
+     Forall (fun fp => pf_rename fp = false) fps -> exists h, plain_steps fs st h st') /\
+  (forall fs st h1 st1, plain_steps fs st h1 st1 -> forall h2 st2, plain_steps fs st1 h2 st2 -> plain_steps fs st (h2 ++ h1) st2).
+Proof. split; [exact apply_file_patches_plain_steps|exact plain_steps_app]. Qed.
+Print Assumptions C08_patches_form_plain_histories.
+
+(* every history, renames included: a renaming status has two backups (its target name and the new name of its file
+   patch); the walk never gets stuck, its outputs pair with the history (hsim: each file for a target name is the
+   file as it was loaded for that file patch), and restoring all of them newest first leaves every name reading as
+   before the history *)
+Theorem C08_pop_restores_all :
+  forall dm fs, disk_ok fs -> forall st h st2, steps fs st h st2 ->
+    exists ov_end l, walk (a_files st2) (List.map fst h) = ROk (ov_end, l) /\ hsim dm h (List.map fst l) /\
+                     wsim allK dm fs (pop_all2 l (a_files st2)) fs (a_files st).
+Proof. exact pop_restores_all. Qed.
+Print Assumptions C08_pop_restores_all.
+
+(* and that walk is, file by file and name by name, what the backup phase writes inside its window *)
+Theorem C08_backups_write_the_walk :
+  forall dm down_to ss ov ov_end l,
+    walk ov ss = ROk (ov_end, l) -> Forall (fun s => (down_to <= st_index s)%nat) ss ->
+    forall fs, backups dm ov ss down_to fs = save_walked dm l fs.
+Proof. exact backups_write_the_walk. Qed.
+Print Assumptions C08_backups_write_the_walk.
+
+(* non-vacuity: one file patch applied to a concrete tree is such a history, with one backup to restore *)
+From Coq Require Import String.
+Definition c08_nl := String (Ascii.ascii_of_nat 10) EmptyString.
+Definition c08_p := b ("--- a/f" ++ c08_nl ++ "+++ b/f" ++ c08_nl ++ "@@ -2 +2 @@" ++ c08_nl ++ "-b" ++ c08_nl ++ "+B" ++ c08_nl)%string.
+Definition c08_fs : fsys :=
+  {| fs_files := [([b "f"], {| f_data := b ("a" ++ c08_nl ++ "b" ++ c08_nl)%string; f_mode := 420 |})];
+     fs_dirs := []; fs_log := []; fs_fault := None; fs_fired := false |}.
+Definition c08_empty : astate := {| a_applied := []; a_files := [] |}.
+Definition c08_fps : list pfilepatch := match parse_patch c08_p 1 false with Ok (Parsed p) => pp_fps p | _ => [] end.
+Example C08_pop_premises_met :
+  disk_ok c08_fs /\
+  exists fp h st2, c08_fps = [fp] /\ plain_steps c08_fs c08_empty h st2 /\ List.length h = 1%nat.
+Proof.
+  split.
+  { intros k f H. unfold fs_read in H. destruct (normalize k) as [|c r]; [discriminate|].
+    destruct (existsb _ _); [discriminate|]. cbn [c08_fs fs_files lookup_file] in H.
+    destruct (npath_eqb (c :: r) [b "f"]); [injection H as <-; vm_compute; reflexivity|].
+    destruct (is_dir _ _); discriminate. }
+  destruct (parse_patch c08_p 1 false) as [[p|]| |] eqn:Ep; try (vm_compute in Ep; discriminate Ep).
+  pose proof (parse_patch_good _ _ _ _ Ep) as Hgood.
+  assert (Hf : c08_fps = pp_fps p) by (unfold c08_fps; rewrite Ep; reflexivity).
+  destruct (pp_fps p) as [|fp [|fp2 r]] eqn:Efps; try (exfalso; vm_compute in Ep; injection Ep as <-; vm_compute in Efps; discriminate Efps).
+  inversion Hgood as [|? ? [Hg _] _]; subst.
+  assert (Hren : pf_rename fp = false).
+  { vm_compute in Ep. injection Ep as <-. vm_compute in Efps. injection Efps as <-. reflexivity. }
+  destruct (apply_one_file_patch c08_fs c08_empty 0 (b "p") false 0 fp) as [[ok st1]| |] eqn:Ea;
+    try (exfalso; vm_compute in Ep; injection Ep as <-; vm_compute in Efps; injection Efps as <-; vm_compute in Ea; discriminate Ea).
+  exists fp. eexists. exists st1. split; [exact Hf|]. split.
+  - pose proof (ps_cons c08_fs c08_empty st1 st1 0%nat (b "p") false 0%nat fp ok [] Ea Hg Hren) as Hc.
+    cbn [app] in Hc. apply Hc; [intros k m Hk; discriminate Hk|constructor].
+  - vm_compute in Ep. injection Ep as <-. vm_compute in Efps. injection Efps as <-. vm_compute in Ea. injection Ea as _ <-.
+    vm_compute. reflexivity.
+Qed.
